@@ -33,3 +33,14 @@ Definition indexed {A} (l : list A) : list (N * A) := indexed_from 0 l.
 
 (* slice/list element access `xs[i]` is `nthN` of Spec/Helpers.v (a list utility, not a spec function);
    None models the Go index-out-of-range panic (or the tree view's error); `updN` likewise is `xs[i] = f(xs[i])`. *)
+
+(* The part of zrnt's `common.EpochsContext` that the epoch sub-transitions read (besides committees):
+   PreviousEpoch/CurrentEpoch/NextEpoch .Epoch and .ActiveIndices, TotalActiveStake, TotalActiveStakeSqRoot. *)
+Record EpcView := mkEpcView {
+  epc_prev_epoch : N;
+  epc_cur_epoch : N;
+  epc_next_epoch : N;
+  epc_prev_active : list N;
+  epc_cur_active : list N;
+  epc_total_active_stake : N;
+  epc_total_active_stake_sqrt : N }.
